@@ -117,6 +117,79 @@ class Graph:
             paths.append(path)
         return paths, len(uncovered)
 
+    USE = ("transform", "rottransform", "query", "rotquery", "inverse", "bootfit", "serialize")
+    RESET = ("fit", "rotfit", "compute", "rotcompute", "deserialize")
+    ANSWER = ("transform", "rottransform", "query", "rotquery", "inverse")
+
+    def _bfs(self, src, want, depth):
+        """shortest path (list of (u, a, v)) from src to the first edge whose (state, action) satisfies want"""
+        q = deque([(src, [])])
+        seen = {src}
+        while q:
+            x, path = q.popleft()
+            for a, v in self.succ[x]:
+                if want(x, a):
+                    return path + [(x, a, v)]
+            if len(path) >= depth:
+                continue
+            for a, v in self.succ[x]:
+                if v not in seen:
+                    seen.add(v)
+                    q.append((v, path + [(x, a, v)]))
+        return None
+
+    def sandwiches(self, rng, n, maxlen):
+        """History probes: use - reset - answer.  A call that may leave hidden state behind (USE), then a call after
+        which that state must not matter any more (RESET: refit on other data, rotator refit, compute, deserialize),
+        then the nearest answer-producing call of the same object (ANSWER).  Transition coverage alone visits each
+        of these edges, but not necessarily in this order."""
+        init = self.init_key()
+        by_kind = defaultdict(list)
+        for u in self.succ:
+            for a, v in self.succ[u]:
+                if a["kind"] in self.USE:
+                    by_kind[a["kind"]].append((u, a, v))
+        if not by_kind:
+            return []
+        dist = {init: []}
+        q = deque([init])
+        while q:                      # shortest prefix to every state
+            x = q.popleft()
+            for a, v in self.succ[x]:
+                if v not in dist:
+                    dist[v] = dist[x] + [(x, a, v)]
+                    q.append(v)
+        out = []
+        kinds = sorted(by_kind)
+        pairs = [(k, rk) for k in kinds for rk in self.RESET]
+        rounds = max(1, -(-n // len(pairs)))
+        for rnd in range(rounds):
+            for (k, rk) in pairs:
+                if len(out) >= n:
+                    return out
+                for attempt in range(6):
+                    u, a, v = rng.choice(by_kind[k])
+                    if u not in dist or len(dist[u]) > maxlen - 4:
+                        continue
+                    path = dist[u] + [(u, a, v)]
+                    side = a["kind"].startswith("rot")
+                    arg0 = self.states[u]["m"].get("data")
+                    seg = self._bfs(v, lambda x, b: b["kind"] == rk and (rk != "fit" or b.get("arg") != arg0), 2)
+                    if seg is None:
+                        continue
+                    path += seg
+                    # the very kind of call that was used before the reset, else the nearest answer of the same object
+                    seg2 = self._bfs(seg[-1][2], lambda x, b: b["kind"] == a["kind"], 3) if a["kind"] in self.ANSWER else None
+                    if seg2 is None:
+                        seg2 = self._bfs(seg[-1][2], lambda x, b: b["kind"] in self.ANSWER and b["kind"].startswith("rot") == side, 3)
+                    if seg2 is None:
+                        continue
+                    path += seg2
+                    if len(path) <= maxlen + 2:
+                        out.append(path)
+                        break
+        return out
+
     def _towards(self, u, uncovered, budget):
         q = deque([(u, None, 0)])
         seen = {u}
@@ -204,6 +277,21 @@ class World:
         kw = dict(seed=seed, complex_=self.fam.complex, kind=self.fam.kind, red=self.fam.time_ordered, multi=self.fam.multi_sample)
         self.ds = make_datasets(dask=daskin, **kw)
         self.ds_mem = make_datasets(dask=False, **kw)
+        if getattr(self.fam, "generic_rot", False):
+            # pick data for which sorting and sign-fixing the rotated modes is not trivial (deterministic search)
+            for extra in range(60):
+                kw["seed"] = seed + 1000 * extra
+                self.ds_mem = make_datasets(dask=False, **kw)
+                rot = self.fam.new_rot(compute=True)
+                mdl = self.fam.new(compute=True, random_state=7)
+                self.fam.fit(mdl, self.ds_mem["d1"])
+                rot.fit(mdl)
+                perm = [int(x) for x in np.asarray(rot.data["idx_modes_sorted"].values)]
+                sign = np.asarray(rot.data["modes_sign"].values)
+                moved = [i for i, p_ in enumerate(perm) if p_ != i]
+                if moved and len(set(np.sign(sign[moved]).tolist())) > 1 and any(perm[perm[i]] != i for i in range(len(perm))):
+                    break
+            self.ds = make_datasets(dask=daskin, **kw)
         self.digest0 = {k: digest(v.objs()) for k, v in self.ds.items()}
         self._ref = {}
         self._refrot = {}
